@@ -103,15 +103,43 @@ fn float_case(st: &mut Stats, rng: &mut Rng, rows: usize, cols: usize) {
     if rows * cols >= 2 { st.nontrivial(hmix(hash_str("f64"), vals.iter().fold((rows * 16 + cols) as u64, |h, (_, v)| hmix(h, v.to_bits())))); }
 }
 
+/// products of one live sparse matrix after each step of an edit history (insert new / overwrite / scale / transpose):
+/// every product must equal the dense product of the model at that moment
+fn history_case(st: &mut Stats, rng: &mut Rng, rows: usize, cols: usize) {
+    if rows == 0 || cols == 0 { return; }
+    st.next_case();
+    let mut m = gen_sm(rng, rows, cols, 0.3, false);
+    let mut t = m.triplets(); rng.shuffle(&mut t);
+    let mut s = match catch(|| Sparse::<Rat>::from_triplets(rows, cols, &mut t)) { Outcome::Ok(s) => s, _ => return };
+    let mut log: Vec<String> = vec![format!("start {}x{} {:?}", rows, cols, m.triplets())];
+    for _ in 0..rng.usize(2, 10) {
+        match rng.below(4) {
+            0 | 1 => { let (r, c) = (rng.usize(0, m.rows - 1), rng.usize(0, m.cols - 1)); let v = Rat::int(rng.int(-9, 9)); log.push(format!("insert({},{},{:?})", r, c, v)); m.e.insert((r, c), v); if !catch(|| s.insert(r, c, v)).is_ok() { st.violation("C07:history:insert:panic", format!("{:?}", log)); return; } }
+            2 => { let f = Rat::int(*rng.pick(&[-2, 3, 0, -1])); log.push(format!("scale({:?})", f)); for v in m.e.values_mut() { *v = *v * f; } if !catch(|| s.scale(&f)).is_ok() { st.violation("C07:history:scale:panic", format!("{:?}", log)); return; } }
+            _ => { log.push("transpose()".into()); m = m.transpose(); match catch(|| s.transpose()) { Outcome::Ok(x) => s = x, _ => { st.violation("C07:history:transpose:panic", format!("{:?}", log)); return; } } }
+        }
+        let d = m.dense();
+        let x: Vec<Rat> = (0..m.cols).map(|j| Rat::int(PRIMES[j % 12] * if rng.bool() { 1 } else { -1 })).collect();
+        let y: Vec<Rat> = (0..m.rows).map(|i| Rat::int(PRIMES[(i + 5) % 12])).collect();
+        st.eval();
+        match (catch(|| s.multiply(&vec_to_ohsl(&x))), catch(|| s.transpose_multiply(&vec_to_ohsl(&y)))) {
+            (Outcome::Ok(p), Outcome::Ok(q)) => if p.vec != d.mulvec(&x) || q.vec != d.transpose().mulvec(&y) { st.violation("C07:history:products-differ-from-dense", format!("A x = {:?} (dense {:?}), A^T y = {:?} (dense {:?}) after {:?}", p.vec, d.mulvec(&x), q.vec, d.transpose().mulvec(&y), log)); return; },
+            (Outcome::Overflow, _) | (_, Outcome::Overflow) => return,
+            (a, b) => { st.violation("C07:history:product:panic", format!("{} / {} after {:?}", a.describe(), b.describe(), log)); return; }
+        }
+    }
+    st.count("histories");
+}
+
 pub fn run(ctx: &Ctx) -> Report {
     let nshape = 121u64; // [0,10]^2
     let reps = ctx.vol(10_000, 600_000);
     let stats = par_run(ctx, TAG, nshape, |u, rng, st| {
         let (r, c) = ((u / 11) as usize, (u % 11) as usize);
-        for _ in 0..reps { exact_case(st, rng, r, c); float_case(st, rng, r, c); }
+        for _ in 0..reps { exact_case(st, rng, r, c); float_case(st, rng, r, c); history_case(st, rng, r, c); }
     });
     let mut rep = Report::new(stats,
-        "for every shape (rows,cols) in [0,10]^2: random duplicate-free patterns (densities 0..1, forced empty rows/columns, explicit zeros, triplets shuffled or raw CSC with scrambled rows); vectors of distinct signed primes; multiply, transpose_multiply, transpose().multiply, adjoint identity <y,Ax>=<A^T y,x>, and all products again after scale(f) — exact over Rat; f64: integer data exact, general data within 4*nnz*u*sum|a||x| of a double-double reference. Non-trivial: at least 2 cells; distinct = distinct (shape, entries, x) hashes");
+        "for every shape (rows,cols) in [0,10]^2: random duplicate-free patterns (densities 0..1, forced empty rows/columns, explicit zeros, triplets shuffled or raw CSC with scrambled rows); vectors of distinct signed primes; multiply, transpose_multiply, transpose().multiply, adjoint identity <y,Ax>=<A^T y,x>, and all products again after scale(f) — exact over Rat; f64: integer data exact, general data within 4*nnz*u*sum|a||x| of a double-double reference. Plus edit histories on one live matrix (insert/overwrite/scale/transpose) with both products checked against the dense model after every step. Non-trivial: at least 2 cells; distinct = distinct (shape, entries, x) hashes");
     rep.assumptions = vec!["dense reference = model built from the same entry map".into()];
     rep.min_nontrivial = 1000;
     rep.extra.set("exhaustive_parts", crate::json::J::Arr(vec![crate::json::J::s("shapes [0,10]^2")]));
